@@ -7,6 +7,7 @@
   sites of any turn is covered), or `t.actFault` / `t.retrFault` for the dialog-side actions.
 -/
 import NemoVerif.Lemmas.Pipeline
+import NemoVerif.Lemmas.PipelineV2
 import NemoVerif.Lemmas.PipelineTie
 
 set_option linter.unusedSimpArgs false
@@ -173,5 +174,59 @@ example : ∃ (cfg : Cfg) (t : Turn), WF cfg .input ∧ WF cfg .output
   ⟨{ inRails := [0, 1], outRails := [0], dialog := false, exc := false, stops := fun _ _ => true, flagReset := true },
    Turn.ofImpl "u" "b" .free (fun r _ => if r = 1 then some .raise else some (.ret ⟨true, none⟩)) (fun _ _ => some (.ret ⟨true, none⟩)) false false,
    fun _ _ => rfl, fun _ _ => rfl, by decide⟩
+
+/-! ### Colang 2.x (guardrails.co) -/
+
+/-- `fail_closed` (2.x): a failing rail action returns `None`, which the rail flow reads as "not
+    allowed" (`norm2 .fault = .reject`); so if any output rail invoked on the LLM text fails (or
+    rejects), only the refusal can be uttered. -/
+theorem fail_closed_v2 (cfg : Cfg) (h : HistV2) (t : Turn) (hi : WF cfg .input) (ho : WF cfg .output) (hor : h.orip = false)
+    (c : Nat × Text) (hc : c ∈ gate (n2 t.vout) cfg.outRails t.bot) (hf : t.vout c.1 c.2 = .fault) :
+    ∀ x, Step.utter x ∈ (turnV2 cfg h t).1 → x = refusal := by
+  have hb : gateStop (n2 t.vout) cfg.outRails t.bot ≠ none := by
+    intro hg
+    have := Pipeline.gate_all_continue (n2 t.vout) cfg.outRails t.bot hg c hc
+    simp [n2, hf, norm2, Verdict.continues] at this
+  intro x hx
+  rw [turnV2_eq_spec cfg h t hi ho hor, turnSpecV2_trace] at hx
+  rcases List.mem_append.mp hx with h1 | h1
+  · rcases List.mem_append.mp h1 with h2 | h2
+    · simp [railSteps] at h2
+    · exact utter_mem_inStopV2 _ _ _ _ x h2
+  · rcases utter_mem_restV2 cfg h t x h1 with h2 | ⟨_, _, hout, _⟩
+    · exact h2
+    · exact absurd hout hb
+
+/-- … and a failing *input* rail ends the turn like a rejection: no dialog / generation step at all. -/
+theorem fail_closed_input_v2 (cfg : Cfg) (h : HistV2) (t : Turn) (hi : WF cfg .input) (ho : WF cfg .output) (hor : h.orip = false)
+    (c : Nat × Text) (hc : c ∈ gate (n2 t.vin) cfg.inRails t.user) (hf : t.vin c.1 c.2 = .fault) :
+    ∀ s ∈ (turnV2 cfg h t).1, s.isGen = false := by
+  have hstop : gateStop (n2 t.vin) cfg.inRails t.user ≠ none := by
+    intro hg
+    have := Pipeline.gate_all_continue (n2 t.vin) cfg.inRails t.user hg c hc
+    simp [n2, hf, norm2, Verdict.continues] at this
+  have hrest : restV2 cfg h t = [] := by
+    unfold restV2
+    cases hg : gateStop (n2 t.vin) cfg.inRails t.user with
+    | none => exact absurd hg hstop
+    | some v => rfl
+  rw [turnV2_eq_spec cfg h t hi ho hor, turnSpecV2_trace, hrest]
+  intro s hs
+  simp only [List.append_nil] at hs
+  rcases List.mem_append.mp hs with h1 | h1
+  · exact isGen_railSteps _ _ s h1
+  · exact isGen_inStopV2 _ _ _ _ s h1
+
+/-- `no_poison` (2.x, repaired guardrails.co): whatever failed in a turn,
+    `$output_rails_in_progress` is `False` afterwards, so the next turn runs all input rails and
+    every LLM text it utters passed all output rails (`C02.output_all_rails_v2` applies to it). -/
+theorem no_poison_v2 (cfg : Cfg) (h : HistV2) (t t' : Turn) (hfr : cfg.flagReset = true) (hi : WF cfg .input) (ho : WF cfg .output)
+    (hor : h.orip = false) :
+    (turnV2 cfg h t).2.2.orip = false
+    ∧ railCalls .input (turnV2 cfg (turnV2 cfg h t).2.2 t').1 = gate (n2 t'.vin) cfg.inRails t'.user := by
+  have h1 := turnV2_orip cfg h t hfr hor
+  refine ⟨h1, ?_⟩
+  rw [turnV2_eq_spec cfg _ t' hi ho h1, turnSpecV2_trace]
+  simp [railCalls_input_inStopV2, railCalls_input_restV2]
 
 end NemoVerif.C03
